@@ -23,12 +23,12 @@ CONFIG = {
              'sets are judged); plus random programs where every observed/built file of every committed build '
              'gets each mutation on a saved copy; evaluations = judged rebuilds; distinct_nontrivial = distinct '
              '(role, position, operation, mode, mutation, expected re-execution?) cells observed'),
-    'exhaustive_layer': 'the factorial core (384 cells: the readback role additionally x {producer METADATA|HASH-compared} x {fresh|preserved output timestamp}) (every cell enumerated in every run, split over shards)',
+    'exhaustive_layer': 'the factorial core (512 cells incl. tail-byte changes of 5 kB files: the readback role additionally x {producer METADATA|HASH-compared} x {fresh|preserved output timestamp}) (every cell enumerated in every run, split over shards)',
     'gates': ['cells', 'cell_expected_rerun', 'cell_expected_cached', 'blind_cells', 'random_mutation_rebuilds',
               'hash_touch_cells', 'metadata_content_only_cells'],
 }
 
-MUTS = ['none', 'touch', 'c_same_new', 'c_size_new', 'c_same_keep', 'c_size_keep']
+MUTS = ['none', 'touch', 'c_same_new', 'c_size_new', 'c_same_keep', 'c_size_keep', 'tail_keep', 'tail_new']
 KINDS = {'extra_invocation', 'missing_invocation', 'reused_output_rewritten'}
 VALUE_KINDS = {'result', 'tree', 'query'}
 
@@ -101,6 +101,12 @@ def apply_mut(w, r, mut, tag):
         return mut if same is not None and w.ext_rewrite(r, same, True) else None
     if mut == 'c_size_keep':
         return mut if w.ext_rewrite(r, bigger, True) else None
+    if mut in ('tail_keep', 'tail_new'):
+        # only the last byte of a multi-kilobyte file changes (the hash must cover the whole file)
+        if len(old) < 2:
+            return None
+        tail = old[:-1] + (b'#' if old[-1:] != b'#' else b'%')
+        return mut if w.ext_rewrite(r, tail, mut == 'tail_keep') else None
     raise ValueError(mut)
 
 
@@ -120,8 +126,9 @@ def run_cell(sh, cell):
     program, target = cell_program(role, pos, op, mode)
     with Scratch('m') as sc:
         w = World(sc)
-        w.ext_write('in', b'input-0')
-        w.ext_write('src', b'source-0')
+        big = mut.startswith('tail')
+        w.ext_write('in', b'input-0' + (b'.' * 5000 if big else b''))
+        w.ext_write('src', b'source-0' + (b'.' * 5000 if big else b''))
         sr = w.build(program, program['roots'][0], {}, label=0)
         if sr.divs or not sr.committed:
             sh.violation('c13_core_first_build_diverged', {'cell': cell, 'divs': [dict(d) for d in sr.divs][:2]},
@@ -134,7 +141,7 @@ def run_cell(sh, cell):
         # METADATA cannot see a same-size same-stamp content change anywhere in the chain;
         # HASH sees content.  Which observers are blind is decided by the model; values are
         # compared only when no observer in the build used METADATA on a blindly changed file.
-        blind = mut in ('c_same_keep',) or 'fixed' in role
+        blind = mut in ('c_same_keep', 'tail_keep') or 'fixed' in role
         sr2 = w.build(program, program['roots'][0], {}, label=0)
         sh.evaluations += 1
         sh.count('cells')
@@ -230,7 +237,7 @@ def run_shard(sh):
                     try:
                         if apply_mut(w, env.rel(w.sb, p), mut, str(counter[0])) is None:
                             continue
-                        blind = mut == 'c_same_keep' or has_fixed
+                        blind = mut in ('c_same_keep', 'tail_keep') or has_fixed
                         sr2 = w.build(program, body, {}, label=ri)
                         sh.evaluations += 1
                         sh.count('random_mutation_rebuilds')
